@@ -137,7 +137,11 @@ contract(f"{IC}::IdentityCommunity._received_disclosure_for_attest", "attest-sen
                                 "ev.named['peer'] is peer"],
                     "substantiate": ["n_known == 1 and k1 == peerkey"],
                     "create_attestation": ["ss and correct", "args[0] is cred.metadata"]},
-         ensures=["implies(n_known == 0 or k1 != peerkey, len(trace()) == 0)"],
+         ensures=["implies(n_known == 0 or k1 != peerkey, len(trace()) == 0)",
+                  # the consent table is only READ here: in particular the time a registration was made is never moved forward (the
+                  # five-minute window of should_sign runs from the user's consent, not from the subject's latest message)
+                  "len(self.known_attestation_hashes) == n_known",
+                  "n_known == 0 or self.known_attestation_hashes[h1] == (n1, t1, k1, None)"],
          covers=["n_known == 0 or n_cred == 0 or len(calls('create_attestation')) == 1"],
          bounded="consent table with 0..1 registrations, 0..1 disclosed credentials",
          note="an attestation is created and sent only for a solicited, substantiated disclosure that should_sign accepts")
